@@ -81,6 +81,23 @@ impl LockCtx {
             self.ensure();
             return Some("same ok".into());
         }
+        // the constructors on a caller-supplied configuration buffer: FFI `new` and `RLN::new` must agree on accepting it
+        if w[1] == "newcfg" && w.len() == 4 {
+            let cfg = parse_bytes(w[2])?;
+            let mut ctx: *mut RLN = std::ptr::null_mut();
+            let ok_f = ffi::new(20, &buf(&cfg), &mut ctx);
+            let r_a = RLN::new(20, Cursor::new(cfg.clone()));
+            let (sf, sa) = (if ok_f { "ok" } else { "err" }, if r_a.is_ok() { "ok" } else { "err" });
+            if ok_f && r_a.is_ok() {
+                if !self.a.is_null() { unsafe { drop(Box::from_raw(self.a)) }; }
+                self.a = ctx;
+                self.b = r_a.ok();
+                self.handed.clear();
+            } else if ok_f && !ctx.is_null() {
+                unsafe { drop(Box::from_raw(ctx)) };
+            }
+            return Some(if sf == sa { format!("same {}", sf) } else { format!("DIFF ffi={} api={} (constructor, configuration of {} bytes)", sf, sa, cfg.len()) });
+        }
         self.ensure();
         let a = self.a;
         // every buffer handed out by an earlier call still holds what it held (the caller owns it; zerokit leaks the vector on purpose)
